@@ -8,6 +8,8 @@ from vlib import log
 CASES = {
     "C16": dict(spec="CodecMC.tla", cfg="CodecMC.cfg", trace="CodecTrace.tla", tcfg="CodecTrace.cfg", drv="codecdrv", key="frame",
                 reps_quick=2, reps_thorough=40),
+    "C18": dict(spec="HDKeyMC.tla", cfg="HDKeyMC.cfg", trace="HDKeyTrace.tla", tcfg="HDKeyTrace.cfg", drv="hdkeydrv", key="frame",
+                reps_quick=1, reps_thorough=12),
     "C20": dict(spec="GatewayMC.tla", cfg="GatewayMC.cfg", trace="GatewayTrace.tla", tcfg="GatewayTrace.cfg", drv="gatewaydrv", key="frame",
                 reps_quick=3, reps_thorough=60),
 }
@@ -53,6 +55,12 @@ def run(prop, tier, seed):
         rounds += 1
         acc, hw, stats = vlib.tlc_validate(d, C["trace"], C["tcfg"], [ev for _, ev in pending], timeout=1500)
         v.cov["trace_validation_states"] = v.cov.get("trace_validation_states", 0) + stats["states"]
+        for i, tag in stats["flags"]:
+            ent = vlib.match_known(prop, dict(tag=tag))
+            if ent:
+                v.known(ent, ent.get("what", "")[:200])
+            else:
+                v.violation("deviation %s taken but not a listed finding" % tag, dict(tag=tag))
         nxt = []
         for i, (sc, ev) in enumerate(pending):
             if i in acc:
